@@ -78,3 +78,298 @@ Ltac fwd :=
   | H : true = false |- _ => discriminate H
   | H1 : ?a = ?b, H2 : ?a = ?b -> _ |- _ => specialize (H2 H1)
   end.
+
+Ltac ipgo := constructor; cbn; intros; try discriminate; try congruence;
+  try match goal with H : RNotify _ = RNotify _ |- _ => injection H as ?; subst end;
+  fwd; splits; eauto; try congruence; try lia.
+
+Ltac rbsimpl := cbn [rb_after_wait rb_cancelled rb_unstarted_ok rb_started_ok rb_insd_ok] in *.
+Ltac fa_tail := intros; unfold quiet_pc, exited, gone in *; cbn in *; auto; try congruence;
+  try (match goal with |- _ \/ _ -> _ => intros [?|[?|?]] end; try discriminate; try congruence; auto).
+Ltac fa :=
+  match goal with
+  | H : Forall _ ?l |- Forall _ (map _ ?l) =>
+      eapply Forall_map_impl; [exact H|]; solve [fa_tail]
+  | H : Forall _ ?l |- Forall _ (upd _ _ ?l) =>
+      apply Forall_upd_nth; [exact H|]; solve [fa_tail]
+  end.
+
+Lemma rstep_pc : forall s c s' evs, Inv_pc s -> rstep s c = Some (s', evs) -> Inv_pc s'.
+Proof.
+  intros s c s' evs HI H. unfold rstep in H.
+  inv_pc_destruct HI.
+  destruct (e_r s) eqn:E; destruct c; try discriminate H; cbv beta iota in H.
+  all: destruct (e_started s) eqn:Est; rbsimpl; fwd; try discriminate.
+  - (* R0 CBoot *) injection H as <- <-. ipgo.
+  - (* RBooted *)
+    destruct (negb (c_client (e_cfg s)) && act_shut a) eqn:Esh; injection H as <- <-.
+    + ipgo.
+    + destruct (c_ticker (e_cfg s)) eqn:Etk; destruct (c_reactor (e_cfg s)) eqn:Ere; rbsimpl; fwd.
+      all: ipgo; try fa; try discriminate.
+  - (* RStarted *) injection H as <- <-. destruct (c_client (e_cfg s)); ipgo.
+  - (* RServing CNone *)
+    destruct (negb (c_client (e_cfg s)) && e_cancel s) eqn:Ec; [|discriminate H]. injection H as <- <-.
+    apply andb_prop in Ec. destruct Ec as [_ Ec]. ipgo; try lia.
+  - (* RServing CClientStop *)
+    destruct (c_client (e_cfg s)); [|discriminate H]. injection H as <- <-. ipgo.
+  - (* RCancelled *) injection H as <- <-. ipgo; lia.
+  - (* RNotify *)
+    destruct (k <? Datatypes.length (e_loops s))%nat eqn:Ek; injection H as <- <-.
+    + apply Nat.ltb_lt in Ek. destruct (Hnotify k eq_refl) as [Hk Hg].
+      ipgo; try fa; try (rewrite upd_length; lia).
+      intros j lj Hj Hnth.
+      rewrite nth_error_upd in Hnth.
+      destruct (Nat.eqb k j) eqn:Eki.
+      * apply Nat.eqb_eq in Eki; subst j. destruct (nth_error (e_loops s) k) eqn:En; cbn in Hnth; [|discriminate].
+        injection Hnth as <-. pose proof (Forall_nth_error _ _ _ _ _ H0 En) as Hne. cbn in Hne.
+        unfold gone, enq_loop; cbn. destruct (l_pc l); auto; try congruence. rewrite has_shut_app. apply orb_true_r.
+      * apply Nat.eqb_neq in Eki. eapply Hg; [|exact Hnth]. lia.
+    + apply Nat.ltb_ge in Ek. destruct (Hnotify k eq_refl) as [Hk Hg].
+      assert (HG : Forall gone (e_loops s)).
+      { apply Forall_all_nth. intros i x Hi. eapply Hg; [|exact Hi]. assert (i < Datatypes.length (e_loops s))%nat by (apply nth_error_Some; congruence). lia. }
+      destruct (c_reactor (e_cfg s)) eqn:Ere; rbsimpl; fwd; ipgo.
+      intros _. unfold gone, enq_loop; cbn. destruct (l_pc (e_ing s)); auto; try congruence. rewrite has_shut_app. apply orb_true_r.
+  - (* RWait *)
+    destruct (all_exited s) eqn:Ea; [|discriminate H]. injection H as <- <-.
+    unfold all_exited in Ea. apply andb_prop in Ea. destruct Ea as [Ea Et]. apply andb_prop in Ea. destruct Ea as [El Ei].
+    ipgo.
+    + apply forallb_Forall in El. eapply Forall_impl; [|exact El]. intros l. unfold exited. destruct (l_pc l); intro Hl; auto; discriminate Hl.
+    + revert Ei. destruct (l_pc (e_ing s)); intro Ei; auto; discriminate Ei.
+    + intro Ht. rewrite Ht in Et. discriminate.
+  - (* RClosePollers *) injection H as <- <-. ipgo; try fa.
+  - (* RStoreInsd *) injection H as <- <-. ipgo.
+  - (* RReturn *) injection H as <- <-. ipgo.
+Qed.
+
+(* ------------------------------------------------------------------ *)
+(* changes that do not concern the invariant *)
+
+Lemma Inv_pc_set_next : forall s n, Inv_pc s -> Inv_pc (set_next s n).
+Proof. intros s n [H1 H2 H3 H4 H5 H6 H7 H8 H9 H10 H11 H12]. constructor; assumption. Qed.
+
+Lemma Inv_pc_set_workers : forall s w, Inv_pc s -> Inv_pc (set_workers s w).
+Proof. intros s n [H1 H2 H3 H4 H5 H6 H7 H8 H9 H10 H11 H12]. constructor; assumption. Qed.
+
+Lemma Inv_pc_set_inall : forall s b, Inv_pc s -> Inv_pc (set_inall s b).
+Proof. intros s n [H1 H2 H3 H4 H5 H6 H7 H8 H9 H10 H11 H12]. constructor; assumption. Qed.
+
+Lemma Inv_pc_set_cancel : forall s, Inv_pc s -> Inv_pc (set_cancel s true).
+Proof. intros s [H1 H2 H3 H4 H5 H6 H7 H8 H9 H10 H11 H12]. constructor; try assumption; cbn; auto. Qed.
+
+Lemma Inv_pc_cancel_if : forall s b, Inv_pc s -> Inv_pc (cancel_if b s).
+Proof. intros s [|] H; cbn; auto. apply Inv_pc_set_cancel; exact H. Qed.
+
+Lemma Inv_pc_put_user : forall s g u, Inv_pc s ->
+  (forall e p, u = UStopPoll e p -> e_cancel s = true) -> Inv_pc (put_user s g u).
+Proof.
+  intros s g u [H1 H2 H3 H4 H5 H6 H7 H8 H9 H10 H11 H12] Hu. constructor; try assumption.
+  cbn. intros g' e p Hn. rewrite nth_error_upd in Hn. destruct (Nat.eqb g g').
+  - destruct (nth_error (e_users s) g'); cbn in Hn; [|discriminate]. injection Hn as ->. eapply Hu; reflexivity.
+  - eapply H12; exact Hn.
+Qed.
+
+Lemma Inv_pc_signal : forall s o, Inv_pc s -> Inv_pc (signal s o).
+Proof.
+  intros s [|k|g] H; cbn; auto.
+  - apply Inv_pc_set_workers; exact H.
+  - destruct H as [H1 H2 H3 H4 H5 H6 H7 H8 H9 H10 H11 H12]. constructor; try assumption.
+    cbn. intros g' e p Hn. rewrite nth_error_upd in Hn. destruct (Nat.eqb g g').
+    + destruct (nth_error (e_users s) g') as [u|] eqn:En; cbn in Hn; [|discriminate].
+      destruct u; try discriminate. injection Hn as <- <-. eapply H12; exact En.
+    + eapply H12; exact Hn.
+Qed.
+
+(* ------------------------------------------------------------------ *)
+(* the legal moves of one loop *)
+
+Definition loop_trans (l l' : loop) : Prop :=
+  (l_pc l = LPoll /\ ((l_pc l' = LPoll /\ (has_shut (l_q l) = true -> has_shut (l_q l') = true)) \/ l_pc l' = LClosing)) \/
+  (l_pc l = LClosing /\ (l_pc l' = LClosing \/ (l_pc l' = LTurnOff /\ l_conns l' = []))) \/
+  (l_pc l = LTurnOff /\ l_pc l' = LExited /\ l_conns l' = l_conns l).
+
+Lemma loop_trans_facts : forall l l', loop_trans l l' ->
+  l_pc l <> LIdle /\ l_pc l <> LExited /\ l_pc l' <> LIdle /\ (gone l -> gone l') /\ (quiet_pc l -> quiet_pc l').
+Proof.
+  intros l l' [[H1 [[H2 H3]|H2]]|[[H1 [H2|[H2 H3]]]|[H1 [H2 H3]]]]; unfold gone, quiet_pc; rewrite H1, H2; splits;
+    try congruence; auto; try (intros _ [?|[?|?]]; congruence); try (intros ? [?|[?|?]]; congruence).
+  intros Hq _. rewrite H3. apply Hq. auto.
+Qed.
+
+Lemma Inv_pc_loops : forall s i l l',
+  Inv_pc s -> get_loop s i = Some l -> loop_trans l l' ->
+  Inv_pc (set_loops s (upd i (fun _ => l') (e_loops s))).
+Proof.
+  intros s i l l' HI Hl Ht. unfold get_loop in Hl.
+  destruct (loop_trans_facts _ _ Ht) as [Hn1 [Hn2 [Hn3 [Hg Hq]]]].
+  inv_pc_destruct HI. constructor; cbn; auto.
+  - apply Forall_upd_nth; [exact Hquiet|]. intros x Hx Hqx. rewrite Hl in Hx. injection Hx as <-. auto.
+  - intros Hs. destruct (Hunst Hs) as [Hall _]. exfalso. apply Hn1. exact (Forall_nth_error _ _ _ _ _ Hall Hl).
+  - intros Hs. destruct (Hst Hs) as [Hall [H1 [H2 H3]]]. splits; auto.
+    apply Forall_upd_nth; [exact Hall|]. intros; exact Hn3.
+  - intros k Hk. destruct (Hnotify k Hk) as [Hk1 Hk2]. split; [rewrite upd_length; exact Hk1|].
+    intros j x Hj Hx. rewrite nth_error_upd in Hx. destruct (Nat.eqb i j) eqn:Eij.
+    + apply Nat.eqb_eq in Eij; subst j. rewrite Hl in Hx. cbn in Hx. injection Hx as <-. apply Hg. eapply Hk2; eauto.
+    + eapply Hk2; eauto.
+  - intros Hw. destruct (Hwait Hw) as [Hw1 Hw2]. split; auto.
+    apply Forall_upd_nth; [exact Hw1|]. intros x Hx Hgx. rewrite Hl in Hx. injection Hx as <-. auto.
+  - intros Ha. destruct (Hafter Ha) as [Hall _]. exfalso. apply Hn2. exact (Forall_nth_error _ _ _ _ _ Hall Hl).
+Qed.
+
+Lemma Inv_pc_ing : forall s l',
+  Inv_pc s -> loop_trans (e_ing s) l' -> l_conns l' = [] -> Inv_pc (set_ing s l').
+Proof.
+  intros s l' HI Ht Hc.
+  destruct (loop_trans_facts _ _ Ht) as [Hn1 [Hn2 [Hn3 [Hg Hq]]]].
+  inv_pc_destruct HI. constructor; cbn; auto.
+  - intros Hs. destruct (Hunst Hs) as [_ [Hi _]]. congruence.
+  - intros Hs. destruct (Hst Hs) as [Hall [H1 [H2 H3]]]. splits; auto.
+  - intros Hr. specialize (Hnoreact Hr). congruence.
+  - intros Hw. destruct (Hwait Hw) as [Hw1 Hw2]. split; auto.
+  - intros Ha. destruct (Hafter Ha) as [_ [[Hi|Hi] _]]; congruence.
+Qed.
+
+Lemma gone_enq : forall l t, gone l -> gone (enq_loop l t).
+Proof.
+  intros l t. unfold gone, enq_loop; cbn. destruct (l_pc l); auto. rewrite has_shut_app. intros ->. reflexivity.
+Qed.
+
+Lemma Inv_pc_trigger : forall s i t, Inv_pc s -> Inv_pc (trigger s i t).
+Proof.
+  intros s i t HI. unfold trigger. inv_pc_destruct HI. constructor; cbn; auto.
+  - apply Forall_upd_nth; [exact Hquiet|]. intros x _ Hx. exact Hx.
+  - intros Hs. destruct (Hunst Hs) as [Hall H]. split; auto. apply Forall_upd_nth; [exact Hall|]. auto.
+  - intros Hs. destruct (Hst Hs) as [Hall H]. split; auto. apply Forall_upd_nth; [exact Hall|]. auto.
+  - intros k Hk. destruct (Hnotify k Hk) as [Hk1 Hk2]. split; [rewrite upd_length; exact Hk1|].
+    intros j x Hj Hx. rewrite nth_error_upd in Hx. destruct (Nat.eqb i j) eqn:Eij.
+    + destruct (nth_error (e_loops s) j) eqn:En; cbn in Hx; [|discriminate]. injection Hx as <-.
+      apply gone_enq. eapply Hk2; eauto.
+    + eapply Hk2; eauto.
+  - intros Hw. destruct (Hwait Hw) as [Hw1 Hw2]. split; auto.
+    apply Forall_upd_nth; [exact Hw1|]. intros x _ Hx. apply gone_enq; exact Hx.
+  - intros Ha. destruct (Hafter Ha) as [Hall H]. split; auto. apply Forall_upd_nth; [exact Hall|]. auto.
+Qed.
+
+Lemma Inv_pc_trigger_ing : forall s t, Inv_pc s -> Inv_pc (trigger_ing s t).
+Proof.
+  intros s t HI. unfold trigger_ing. inv_pc_destruct HI. constructor; cbn; auto.
+  intros Hw. destruct (Hwait Hw) as [Hw1 Hw2]. split; auto. intros Hr. apply gone_enq; auto.
+Qed.
+
+(* ------------------------------------------------------------------ *)
+(* the steps of the threads preserve the invariant *)
+
+Lemma apply_cb_shape : forall t l cid h l2 evs d, apply_cb t l cid h = (l2, evs, d) ->
+  (l_pc l2 = l_pc l \/ l_pc l2 = LClosing) /\ l_q l2 = l_q l /\ l_pclosed l2 = l_pclosed l /\
+  (l_conns l2 = l_conns l \/ l_conns l2 = zremove cid (l_conns l)).
+Proof.
+  intros t l cid h l2 evs d H. unfold apply_cb in H. destruct (after_cb h) as [[cl se] off].
+  injection H as <- <- <-. destruct cl, se; cbn; auto.
+Qed.
+
+Lemma loop_common_trans : forall t l c l' evs off, loop_common t l c = Some (l', evs, off) ->
+  loop_trans l l' /\ (l_conns l = [] -> l_conns l' = []) /\ (off = true -> l_pc l' = LExited).
+Proof.
+  intros t l c l' evs off H. unfold loop_common in H. unfold loop_trans.
+  destruct (l_pc l) eqn:Epc; destruct c; try discriminate H.
+  all: try (destruct (l_conns l) as [|cid rest] eqn:Ec); injection H as <- <- <-; cbn; splits; auto; try discriminate.
+  all: try first
+    [ left; split; [reflexivity|right; reflexivity]
+    | right; left; split; [reflexivity|right; split; [reflexivity|assumption]]
+    | right; left; split; [reflexivity|left; reflexivity]
+    | right; right; splits; reflexivity ].
+  all: try (rewrite Ec; discriminate).
+Qed.
+
+Ltac peel :=
+  repeat first [apply Inv_pc_cancel_if | apply Inv_pc_set_next | apply Inv_pc_signal | apply Inv_pc_set_cancel
+               | apply Inv_pc_set_workers | apply Inv_pc_set_inall].
+
+Lemma lstep_pc : forall i s c s' evs, Inv_pc s -> lstep i s c = Some (s', evs) -> Inv_pc s'.
+Proof.
+  intros i s c s' evs HI H. unfold lstep in H.
+  destruct (get_loop s i) as [l|] eqn:Hl; [|discriminate H].
+  destruct (l_pc l) eqn:Epc.
+  2: destruct c as [| | | | |io|k h| | | | | | |]; try (destruct io).
+  all: step_cases H.
+  all: try match goal with E : loop_common _ _ _ = Some _ |- _ =>
+         apply loop_common_trans in E; destruct E as [Ht [_ _]] end.
+  all: try match goal with E : apply_cb _ _ _ _ = _ |- _ =>
+         apply apply_cb_shape in E; cbn in E; destruct E as [Hpc [Hq [_ _]]] end.
+  all: peel; try (eapply Inv_pc_loops; [exact HI|exact Hl|]).
+  all: try exact Ht.
+  all: unfold loop_trans; left; split; [exact Epc|]; cbn.
+  all: try (right; reflexivity).
+  all: try (rewrite Epc in Hpc; destruct Hpc as [Hpc|Hpc]; [left; split; [exact Hpc|rewrite Hq]|right; exact Hpc]).
+  all: try (destruct (act_shut _); cbn; [right; reflexivity|left; split; [exact Epc|auto]]).
+  all: try (left; split; [reflexivity|]).
+  all: cbn; auto.
+  all: try (intros Hs; eapply has_shut_remove; [eassumption|exact Hs|exact I]).
+  left; split; [exact Epc|]. intros Hs. eapply has_shut_remove; [eassumption|exact Hs|exact I].
+Qed.
+
+Lemma astep_pc : forall s c s' evs, Inv_pc s -> astep s c = Some (s', evs) -> Inv_pc s'.
+Proof.
+  intros s c s' evs HI H. unfold astep in H.
+  pose proof (ip_ing_conns _ HI) as Hc.
+  destruct (l_pc (e_ing s)) eqn:Epc.
+  2: destruct c as [| | |li| | |k h| | | | | | |].
+  all: step_cases H.
+  all: try match goal with E : loop_common _ _ _ = Some _ |- _ =>
+         apply loop_common_trans in E; destruct E as [Ht [Hc' _]] end.
+  all: peel; try (apply Inv_pc_trigger; exact HI).
+  all: try (apply Inv_pc_ing; [exact HI|exact Ht|auto]).
+  apply Inv_pc_ing; [exact HI| |exact Hc].
+  unfold loop_trans. left. split; [exact Epc|]. right. reflexivity.
+Qed.
+
+Lemma tstep_pc : forall s c s' evs, Inv_pc s -> tstep s c = Some (s', evs) -> Inv_pc s'.
+Proof.
+  intros s c s' evs HI H. unfold tstep in H.
+  destruct (e_t s) eqn:Et; destruct c; try discriminate H.
+  - destruct (e_cancel s); [|discriminate H]. injection H as <- <-.
+    inv_pc_destruct HI. constructor; cbn; auto.
+    + intros Hs. destruct (Hunst Hs) as [_ [_ [Hx _]]]. congruence.
+    + intros Hs. destruct (Hst Hs) as [H1 [H2 [H3 H4]]]. splits; auto; intros _; discriminate.
+    + intros Hn. specialize (Hnotick Hn). congruence.
+    + intros Ha. destruct (Hafter Ha) as [H1 [H2 H3]]. splits; auto; discriminate.
+  - injection H as <- <-. destruct (act_shut a); [|exact HI].
+    destruct (c_reactor (e_cfg s)); [apply Inv_pc_trigger_ing|apply Inv_pc_trigger]; exact HI.
+Qed.
+
+Lemma wstep_pc : forall k s c s' evs, Inv_pc s -> wstep k s c = Some (s', evs) -> Inv_pc s'.
+Proof.
+  intros k s c s' evs HI H. unfold wstep in H. step_cases H.
+  all: peel; try (apply Inv_pc_trigger); exact HI.
+Qed.
+
+Lemma ustep_pc : forall g s c s' evs, Inv_pc s -> ustep g s c = Some (s', evs) -> Inv_pc s'.
+Proof.
+  intros g s c s' evs HI H. unfold ustep in H.
+  destruct (get_user s g) as [u|] eqn:Hu; [|discriminate H].
+  destruct u as [|expired pkg|opened].
+  - (* a call *)
+    destruct c; try discriminate H.
+    unfold do_call in H. destruct c; step_cases H.
+    all: unfold new_worker.
+    all: try (apply Inv_pc_put_user; [|intros; try discriminate; reflexivity]).
+    all: peel; try (apply Inv_pc_trigger); try exact HI.
+    destruct b; [apply Inv_pc_trigger|]; exact HI.
+  - destruct c; try discriminate H.
+    + injection H as <- <-. apply Inv_pc_put_user; [exact HI|]. intros e p _. eapply (ip_users _ HI); exact Hu.
+    + step_cases H; (apply Inv_pc_put_user; [destruct pkg; peel; exact HI|intros; discriminate]).
+    + step_cases H; (apply Inv_pc_put_user; [destruct pkg; peel; exact HI|intros; discriminate]).
+  - step_cases H; apply Inv_pc_put_user; [exact HI|intros; discriminate].
+Qed.
+
+Theorem inv_pc_reachable : forall s, ereachable s -> Inv_pc s.
+Proof.
+  apply engine_invariant.
+  - apply Inv_pc_init.
+  - intros s t c s' evs _ HI H. apply Inv_pc_push. destruct t; cbn in H.
+    + eapply rstep_pc; eauto.
+    + eapply lstep_pc; eauto.
+    + eapply astep_pc; eauto.
+    + eapply tstep_pc; eauto.
+    + eapply ustep_pc; eauto.
+    + eapply wstep_pc; eauto.
+Qed.
